@@ -56,18 +56,26 @@ def run_history(su, hist, mode):
     cb = lambda b: tuple(conv(h, u) for h in b)  # noqa: E731
     plane = Plane(cb(su["pb"]), su["g"])
     objs = [Stub(i + 1, cb(b)) for i, b in enumerate(su["box"])]
+    rejected_ok = True
     for op, o in hist:
         if op == "add":
             plane.add(objs[o - 1])
-        else:
+        elif op == "remove":
             plane.remove(objs[o - 1])
+        else:                       # "xremove": the object is not in the index - the call is rejected with KeyError
+            try:                    # (any other exception propagates to the caller), and the walk goes on
+                plane.remove(objs[o - 1])
+                rejected_ok = False
+            except KeyError:
+                pass
     seq, live, grid = project(plane)
     finds = [[o.oid for o in plane.find(cb(q))] for q in su["qs"]]
     it = [o.oid for o in plane]
     n = len(plane)
     contains = sorted(o.oid for o in objs if o in plane)
     pure = project(plane) == (seq, live, grid)
-    return {"seq": seq, "objs": live, "grid": grid, "f": finds, "it": it, "n": n, "contains": contains, "pure": pure}
+    return {"seq": seq, "objs": live, "grid": grid, "f": finds, "it": it, "n": n, "contains": contains, "pure": pure,
+            "rejected_raised": rejected_ok}
 
 
 # ------------------------------------------------------------------------------------------ Plane recorder
@@ -119,12 +127,16 @@ class PlaneRecorder:
                     log(tr, {"op": "add", "o": oid(tr, obj), "b": (obj.x0, obj.y0, obj.x1, obj.y1), "n": o_len(self_)})
 
         def remove(self_, obj):
+            ok = False
             try:
-                return o_remove(self_, obj)
-            finally:
+                r = o_remove(self_, obj)
+                ok = True
+                return r
+            finally:                # a call that raises (object not in the index) is logged as "xremove"
                 tr = tr_of(self_)
                 if tr is not None:
-                    log(tr, {"op": "remove", "o": oid(tr, obj), "b": (obj.x0, obj.y0, obj.x1, obj.y1), "n": o_len(self_)})
+                    log(tr, {"op": "remove" if ok else "xremove", "o": oid(tr, obj), "b": (obj.x0, obj.y0, obj.x1, obj.y1),
+                             "n": o_len(self_)})
 
         def find(self_, bbox):
             res = list(o_find(self_, bbox))
